@@ -172,6 +172,21 @@ def moov? (s : String) : Option (List MoovChild) :=
 
 def showMoov (l : List MoovChild) : String := if l.isEmpty then "-" else ";".intercalate (l.map showMoovChild)
 
+/-- `id*k`: a trak with k protected sample entries (cenc), or one clear entry when k = 0 -/
+def trexTrak? (s : String) : Option MoovChild :=
+  match s.splitOn "*" with
+  | [id, k] => do
+      let n ← k.toNat?
+      let prot : SampleEntry := { cls := .visual, kind := "encv", children := [.sinf (schemeSinf .cenc "avc1")] }
+      let clear : SampleEntry := { cls := .visual, kind := "avc1", children := [] }
+      pure (.trak { trackID := ← id.toNat?, entries := if n = 0 then [clear] else List.replicate n prot })
+  | _ => none
+
+def showTrexPairing (l : List (Nat × Option Nat)) : String :=
+  if l.isEmpty then "-" else ",".intercalate (l.map fun
+    | (id, none) => s!"{id}=-"
+    | (id, some p) => s!"{id}={p}")
+
 def dispatch (op : String) (args : List String) : Option String :=
   match op, args with
   | "prot.enc", [sc, subs, f] => do
@@ -186,6 +201,9 @@ def dispatch (op : String) (args : List String) : Option String :=
       pure (match initProtect (← scheme? sc) (← plusNats ps) (← moov? m) with | some r => showMoov r | none => "err")
   | "prot.deinit", [m] => do
       pure (match decryptInit (← moov? m) with | some (r, di) => s!"{showMoov r} {showDecInfo di}" | none => "err")
+  | "prot.trex", [ts, tx] => do
+      let traks ← (ts.splitOn ",").mapM trexTrak?
+      pure (match decryptInitTrex traks (← plusNats tx) with | some r => showTrexPairing r | none => "err")
   | _, _ => none
 
 end Mp4ff.Driver.C06b
